@@ -115,7 +115,11 @@ def main():
         counts=dict(stats.COUNTS),
         cases=sorted(stats.CASES)[:400],
         ncases=len(stats.CASES),
+        budget_s=float(job.get("timeout", 30)),
     )
+    # "unknown" well before the budget ended means some path could not be decided (unsupported operation,
+    # solver unknown): the search stopped as "exhausted with UNKNOWN"
+    out["undecided_path"] = out["status"] == "unknown" and (time.process_time() - c0) < 0.8 * float(job.get("timeout", 30))
     print("RESULT " + json.dumps(out), flush=True)
 
 
